@@ -21,7 +21,7 @@ type c03Flag bool
 type c03Name string
 
 type c03Node struct {
-	kind string // if elseif else plain ws comment
+	kind string // if elseif else plain ws comment for0 for2
 	c    bool
 	id   int
 	tag  string // p | template
@@ -38,6 +38,10 @@ func (n c03Node) Coq() string {
 		return fmt.Sprintf("NElse %d", n.id)
 	case "plain":
 		return fmt.Sprintf("NPlain %d", n.id)
+	case "for0":
+		return fmt.Sprintf("NFor 0 %d", n.id)
+	case "for2":
+		return fmt.Sprintf("NFor 2 %d", n.id)
 	}
 	return fmt.Sprintf("NOther %d", n.id)
 }
@@ -54,6 +58,10 @@ func (n c03Node) Source() string {
 		return "\n  "
 	case "comment":
 		return "<!-- note -->"
+	case "for0":
+		dir = ` v-for="q in none"`
+	case "for2":
+		dir = ` v-for="q in two"`
 	}
 	switch n.deco {
 	case "for1":
@@ -87,13 +95,13 @@ func init() { streams["C03"] = runC03 }
 
 func runC03(r *Run) {
 	r.Imports = []string{"Base.Val", "Model.Chain", "Model.Truthy"}
-	r.Rule("(chain) every sibling list up to length 4 (thorough 6) over {v-if, v-else-if, v-else, plain element, whitespace text, comment} x every truth assignment, each placed at top level, nested, inside v-for over 1 and 2 items or on <template v-for>, " +
+	r.Rule("(chain) every sibling list up to length 4 (thorough 6) over {v-if, v-else-if, v-else, plain element, whitespace text, comment, element with v-for over no item, element with v-for over two items} x every truth assignment, each placed at top level, nested, inside v-for over 1 and 2 items or on <template v-for>, " +
 		"members on <p> or <template>, optionally carrying v-for over one item or a truthy v-show; observable: marker ids in document order. " +
 		"(truthy-fn) IsTruthy on one value of every kind and width, zero and non-zero. (positions) value kind x {v-if, !v in v-if, v-else-if, v-show, bound attribute, :class object, v-show on a v-if element}; " +
 		"non-trivial: chain with >= 2 members, or a numeric zero of a kind other than int, or a non-bool value")
 	rr := r.Rng
 	// ---------- chain shapes ----------
-	kinds := []string{"if", "elseif", "else", "plain", "ws", "comment"}
+	kinds := []string{"if", "elseif", "else", "plain", "ws", "comment", "for0", "for2"}
 	maxLen := 4
 	if r.Thorough() {
 		maxLen = 6
@@ -101,6 +109,16 @@ func runC03(r *Run) {
 	shapes := 0
 	var rec func(prefix []string)
 	emitShape := func(shape []string) {
+		loops := 0
+		for _, k := range shape {
+			if k == "for0" || k == "for2" {
+				loops++
+			}
+		}
+		// shapes with loop siblings: all up to length 3, one in three of length 4, one in twelve beyond
+		if loops > 0 && ((len(shape) == 4 && rr.Intn(3) != 0) || (len(shape) > 4 && rr.Intn(12) != 0)) {
+			return
+		}
 		// enumerate truth assignments of the conditional members
 		var condIdx []int
 		for i, k := range shape {
@@ -116,7 +134,7 @@ func runC03(r *Run) {
 				continue
 			}
 			nodes := make([]c03Node, len(shape))
-			data := map[string]any{"one": []any{"i"}, "two": []any{"i", "j"}, "yes": true}
+			data := map[string]any{"one": []any{"i"}, "two": []any{"i", "j"}, "yes": true, "none": []any{}}
 			members := 0
 			for i, k := range shape {
 				nodes[i] = c03Node{kind: k, id: i + 1, tag: "p"}
